@@ -609,7 +609,7 @@ func writeSites(sites []site) {
 
 type regFunc struct {
 	pkgAlias, pkgRel, name string
-	params                []string
+	params                 []string
 }
 
 type regType struct {
